@@ -1346,7 +1346,7 @@ func (g *c17Gen) collide(t *c17Ty, d *c17Doc) bool {
 func (g *c17Gen) dollar(d *c17Doc) {
 	switch d.kind {
 	case "str":
-		if g.r.Chance(1, 3) {
+		if g.r.Chance(2, 3) {
 			d.lit = g.r.PickS("${C17V}", "a${C17V}b", "${C17UNSET}x", "$C17V", "${C17V}${C17V}")
 		}
 	case "arr":
@@ -1377,13 +1377,19 @@ func c17GenSections(r *verifh.Rng) []verifh.Section {
 			}
 			m := &c17Ty{kind: "%", elem: el}
 			var ft *c17Ty
-			switch g.r.Intn(3) {
+			switch g.r.Intn(6) {
 			case 0:
 				ft = &c17Ty{kind: "@", elem: m}
 			case 1:
 				ft = &c17Ty{kind: "%", elem: m}
-			default:
+			case 2:
 				ft = &c17Ty{kind: "%", elem: &c17Ty{kind: "@", elem: m}}
+			case 3: // arrays of arrays of structs: the lowering has to descend through both levels
+				ft = &c17Ty{kind: "@", elem: &c17Ty{kind: "@", elem: el}}
+			case 4:
+				ft = &c17Ty{kind: "@", elem: &c17Ty{kind: "@", elem: &c17Ty{kind: "@", elem: inner}}}
+			default:
+				ft = &c17Ty{kind: "@", elem: &c17Ty{kind: "@", elem: m}}
 			}
 			t = &c17Ty{kind: "{", fields: []c17Field{{name: "Items", key: g.r.PickS("", "items", "Items"), ty: ft}}}
 		}
@@ -1414,7 +1420,7 @@ func c17GenSections(r *verifh.Rng) []verifh.Section {
 		}
 		// the file-level API
 		for j := 0; j < 2; j++ {
-			d := g.docFor(t, g.r.Pick(0, 0, 10), false)
+			d := g.docFor(t, g.r.Pick(0, 0, 0, 10), false)
 			for d.kind != "obj" {
 				d = g.docFor(t, 0, false)
 			}
